@@ -196,13 +196,13 @@ def obligations(tier):
            d1=I(0, ndst - 1), h1=I(0, 0) if quick else B(), s2=I(0, nsrc - 1),
            d2=I(0, ndst - 1), h2=I(0, 0) if quick else B())
   vs = dict(v0=I(-2, 2), v1=I(-2, 2), v2=I(-2, 2))
-  nmax = 2 if quick else 3
+  nmax = 2           # thorough widens the node pools and merge orders instead
   return [
       Ob('split_merge_roundtrip', roundtrip,
          dict(n=I(0, nmax), **e, **vs, fi=I(0, len(FILTERS) - 1), perm=I(0, 5),
               nsrc=I(nsrc, nsrc), ndst=I(ndst, ndst),
               perm2only=I(1, 1) if quick else I(0, 0)),
-         split=('n', 's0', 'd0', 'fi') if quick else ('n', 's0', 'd0', 's1', 'fi'),
+         split=('n', 's0', 'd0', 'fi') if quick else ('n', 's0', 'd0', 'd1', 'fi'),
          timeout=600, funcs=F,
          bounds='base graph + <=%d extra edges over %d sources x %d targets, %d '
                 'filter tuples, merge argument orders: %s' % (
@@ -211,6 +211,6 @@ def obligations(tier):
       Ob('state_update_clone_pop', state_update_clone_pop,
          dict(n=I(0, nmax), **e, **vs, op=I(0, 3), nsrc=I(nsrc, nsrc),
               ndst=I(ndst, ndst)),
-         split=('n', 's0', 'd0', 'op') if quick else ('n', 's0', 'd0', 's1', 'op'),
+         split=('n', 's0', 'd0', 'op') if quick else ('n', 's0', 'd0', 'd1', 'op'),
          timeout=600, funcs=F, bounds='same graphs; state / update / clone / pop'),
   ]
